@@ -90,9 +90,15 @@ class VProcess:
         code = None
         V.ip_acquire(str(lockp))
         # like the real TaskRunner: parameters are read after the job lock has been taken
-        params = json.loads((script.parent / "params.json").read_text())
-        fields = params["objects"][-1]["fields"]
-        name = job_name(params)
+        try:
+            params = json.loads((script.parent / "params.json").read_text())
+            fields = params["objects"][-1]["fields"]
+            name = job_name(params)
+        except ValueError:
+            # params.json is being rewritten (truncated) by a scheduler: run() raises, TaskRunner.run's `except Exception`
+            # takes the failure path with code 1 (unless the success marker is already there: run() is then not called)
+            fields, name = {"code": 1}, self.name
+            V.W.events.append(("params_unreadable", name, jobid, self.vpid))
         mode = "done-present" if done.is_file() else ("ok" if fields.get("code", 0) == 0 else "fail")
         for op in BEHAVIOUR[mode]:
             if op == "lock" or op == "test-done":
